@@ -109,16 +109,23 @@ ILT(S) == {<<s[2], s[1] + 1>> : s \in S}
 Ev == Range(events)
 HistoryConsistent == Ev = EventsOf(x, NL) /\ Cardinality(Ev) = Len(events)
 
-Fronts1D == \A l \in 1..NL : FrontsP(From1(FrontsImpl(Arr1(l), -1, step), l), {e \in Ev : e[2] = l}, amp, step)
-FrontsTL == FrontsP(FromTL(FrontsImpl(ArrTL, 0, step)), Ev, amp, step)
+\* every spelling of the time axis gives the same answer: 0 / -1 on a vector, 0 / -2 on rows = time, 1 / -1 on rows = lines
+Fronts1D == \A l \in 1..NL : /\ FrontsP(From1(FrontsImpl(Arr1(l), -1, step), l), {e \in Ev : e[2] = l}, amp, step)
+                             /\ FrontsImpl(Arr1(l), 0, step) = FrontsImpl(Arr1(l), -1, step)
+FrontsTL == /\ FrontsP(FromTL(FrontsImpl(ArrTL, 0, step)), Ev, amp, step)
+            /\ FrontsImpl(ArrTL, -2, step) = FrontsImpl(ArrTL, 0, step)
 FrontsLT == /\ FrontsP(FromLT(FrontsImpl(ArrLT, 1, step)), Ev, amp, step)
             /\ FrontsImpl(ArrLT, -1, step) = FrontsImpl(ArrLT, 1, step)
 Rises == /\ RisesP(ITL(RisesImpl(ArrTL, 0, step)), Ev, amp, step)
          /\ RisesP(ILT(RisesImpl(ArrLT, -1, step)), Ev, amp, step)
          /\ \A l \in 1..NL : RisesP(I1(RisesImpl(Arr1(l), -1, step), l), {e \in Ev : e[2] = l}, amp, step)
+         /\ RisesImpl(ArrTL, -2, step) = RisesImpl(ArrTL, 0, step)
+         /\ \A l \in 1..NL : RisesImpl(Arr1(l), 0, step) = RisesImpl(Arr1(l), -1, step)
 Falls == /\ FallsP(ITL(FallsImpl(ArrTL, 0, -step)), Ev, amp, step)
          /\ FallsP(ILT(FallsImpl(ArrLT, -1, -step)), Ev, amp, step)
          /\ \A l \in 1..NL : FallsP(I1(FallsImpl(Arr1(l), -1, -step), l), {e \in Ev : e[2] = l}, amp, step)
+         /\ FallsImpl(ArrTL, -2, -step) = FallsImpl(ArrTL, 0, -step)
+         /\ \A l \in 1..NL : FallsImpl(Arr1(l), 0, -step) = FallsImpl(Arr1(l), -1, -step)
 Split == SplitP(FromTL(FrontsImpl(ArrTL, 0, step)), ITL(RisesImpl(ArrTL, 0, step)), ITL(FallsImpl(ArrTL, 0, -step)))
 
 \* events are in time order and alternate per line (a line cannot rise twice in a row)
